@@ -1441,6 +1441,14 @@ impl CaState {
 	/// been computed on a *clone-free* state only when `processed` is true.
 	fn apply_answer(&mut self, answer: &str, kind: &str, base: Option<Resp>) -> Resp {
 		let parts: Vec<&str> = answer.split(':').collect();
+		// "...:slow<n>": the answer takes n seconds of *real* time (a slow CA; the virtual clock does not move)
+		if let Some(n) = parts
+			.iter()
+			.find_map(|p| p.strip_prefix("slow"))
+			.and_then(|s| s.parse::<u64>().ok())
+		{
+			std::thread::sleep(std::time::Duration::from_secs(n));
+		}
 		match parts[0] {
 			"err" => {
 				let t = parts.get(1).copied().unwrap_or("serverInternal");
